@@ -28,14 +28,15 @@ func (d *c20Dev) ReadAt(p []byte, off int64) (int, error) {
 }
 
 const (
-	c20Ino      = 12 // first non-reserved inode of a mke2fs image
 	c20IPG      = 16
-	c20ITable   = 5 // block of the inode table of group 0
+	c20Ino      = c20IPG + 5 // an inode of group 1 (slot 4 of its table)
+	c20ITable0  = 5          // block of the inode table of group 0
+	c20ITable   = 9          // block of the inode table of group 1
 	c20DataFrom = 4096
 )
 
-// c20Fixture: a mounted filesystem structure (as ext4.Read would build it) with one group whose inode
-// table holds `raw` in the slot of inode c20Ino.
+// c20Fixture: a mounted filesystem structure (as ext4.Read would build it) with two groups; the inode
+// table of group 1 holds `raw` in the slot of inode c20Ino.
 func c20Fixture(bs uint32, csum bool, raw []byte) (*FileSystem, *c20Dev, *superblock) {
 	sb := c20SB(256, bs, false)
 	sb.features.metadataChecksums = csum
@@ -45,13 +46,14 @@ func c20Fixture(bs uint32, csum bool, raw []byte) (*FileSystem, *c20Dev, *superb
 	dev.Size = -1
 	dev.UF = true
 	dev.NoWrites = true
-	dev.regOff = append(dev.regOff, int64(c20ITable)*int64(bs)+int64(c20Ino-1)*256)
+	dev.regOff = append(dev.regOff, int64(c20ITable)*int64(bs)+int64(c20Ino-1-c20IPG)*256)
 	dev.regData = append(dev.regData, raw)
 	fs := &FileSystem{
-		superblock:       sb,
-		groupDescriptors: &groupDescriptors{descriptors: []groupDescriptor{{inodeTableLocation: c20ITable, size: 64}}},
-		blockGroups:      1,
-		backend:          dev,
+		superblock: sb,
+		groupDescriptors: &groupDescriptors{descriptors: []groupDescriptor{
+			{inodeTableLocation: c20ITable0, size: 64}, {inodeTableLocation: c20ITable, size: 64, number: 1}}},
+		blockGroups: 2,
+		backend:     dev,
 	}
 	return fs, dev, sb
 }
@@ -116,6 +118,10 @@ func VP_C20_readinode_slow_symlink() {
 
 // c20DirInode prepares a directory inode with one extent (file block 0, nblocks blocks at block start).
 func c20DirInode(raw []byte, sb *superblock, bs uint32, nblocks uint16, start uint32, flags uint32) {
+	c20DirInodeFor(raw, sb, bs, nblocks, start, flags, c20Ino)
+}
+
+func c20DirInodeFor(raw []byte, sb *superblock, bs uint32, nblocks uint16, start uint32, flags uint32, ino uint32) {
 	raw[0], raw[1] = 0xed, 0x41 // directory, 0755
 	c20put32(raw, 4, uint32(nblocks)*bs)
 	c20put32(raw, 0x6c, 0)
@@ -125,7 +131,7 @@ func c20DirInode(raw []byte, sb *superblock, bs uint32, nblocks uint16, start ui
 	c20put32(raw, o, 0)
 	raw[o+4], raw[o+5], raw[o+6], raw[o+7] = byte(nblocks), byte(nblocks>>8), 0, 0
 	c20put32(raw, o+8, start)
-	c20SealInode(raw, sb.checksumSeed, c20Ino)
+	c20SealInode(raw, sb.checksumSeed, ino)
 }
 
 // c20FixedEntry writes the structural bytes of a directory entry at p: rec_len, name_len; the inode is
@@ -223,15 +229,27 @@ func VP_C20_readdirectory_htree() {
 
 // VP_C20_unsupported_blockmap_dir: a directory that is not extent-mapped (ext2/ext3-style image, or an
 // inline_data directory): the library has no reader for it, so readDirectory must fail with an error -
-// not crash and not list anything.
+// not crash and not list anything. Control path: the same inode with an (empty) extent tree reads fine.
 func VP_C20_unsupported_blockmap_dir() {
 	const bs = 1024
 	raw := vp.Bytes("inode", 256)
 	fs, _, sb := c20Fixture(bs, true, raw)
 	raw[0], raw[1] = 0xed, 0x41
-	vp.Assume(raw[0x22]&0x08 == 0) // EXT4_EXTENTS_FL clear; EXT4_INLINE_DATA_FL (0x10000000) arbitrary
+	c20put32(raw, 4, 0)
+	c20put32(raw, 0x6c, 0)
+	raw[0x21] = 0 // not hash-indexed
+	if vp.Bool("extentMapped") {
+		raw[0x22] |= 0x08
+		c20SetHeader(raw[0x28:0x64], 0, 4, 0)
+		c20SealInode(raw, sb.checksumSeed, c20Ino)
+		res, err := fs.readDirectory(c20Ino)
+		vp.Assert(err == nil, "control: an empty extent-mapped directory reads")
+		vp.Assert(len(res) == 0, "control: and is empty")
+		vp.Cover("control: extent-mapped directory")
+		return
+	}
+	raw[0x22] &^= 0x08 // EXT4_EXTENTS_FL clear; EXT4_INLINE_DATA_FL (0x10000000) arbitrary
 	c20SealInode(raw, sb.checksumSeed, c20Ino)
-	vp.Cover("directory inode without extent tree prepared")
 	vp.KnownPanic("KF-C20-5", "ext4.go:1712")
 	vp.NoPanic()
 	res, err := fs.readDirectory(c20Ino)
@@ -240,7 +258,7 @@ func VP_C20_unsupported_blockmap_dir() {
 	if err == nil {
 		vp.Assert(len(res) == 0, "nothing is invented")
 	}
-	vp.Cover("block-mapped directory handled")
+	vp.Cover("block-mapped directory refused")
 }
 
 // VP_C20_unsupported_blockmap_file: a regular file that is not extent-mapped (ext2/ext3 block map or
@@ -310,4 +328,174 @@ func VP_C20_open_and_read() {
 		vp.Assert(fi.Mode().Perm() == 0o644, "File.Stat().Mode() permission bits")
 	}
 	vp.Cover("opened and read")
+}
+
+// c20RootFS extends the fixture with a root directory (inode 2, one metadata_csum block of size 48 at
+// block 400) that lists ".", ".." and the file "f" -> inode c20Ino with the given dirent type.
+func c20RootFS(fileRaw []byte, direntType byte) (*FileSystem, *c20Dev, *superblock) {
+	const bs = 48
+	const dblk = 400
+	fs, dev, sb := c20Fixture(bs, true, fileRaw)
+	root := make([]byte, 256)
+	c20DirInodeFor(root, sb, bs, 1, dblk, 0x80000, 2)
+	dev.regOff = append(dev.regOff, int64(c20ITable0)*bs+1*256)
+	dev.regData = append(dev.regData, root)
+	blk := make([]byte, bs)
+	put := func(p int, ino uint32, name string, ft byte) {
+		c20put32(blk, p, ino)
+		blk[p+4], blk[p+5], blk[p+6], blk[p+7] = 12, 0, byte(len(name)), ft
+		copy(blk[p+8:], name)
+	}
+	put(0, 2, ".", 2)
+	put(12, 2, "..", 2)
+	put(24, c20Ino, "f", direntType)
+	blk[bs-8], blk[bs-5] = 12, 0xde
+	c20put32(blk, bs-4, c20DirCsum(sb.checksumSeed, 2, 0, blk[:bs-12]))
+	dev.regOff = append(dev.regOff, dblk*bs)
+	dev.regData = append(dev.regData, blk)
+	return fs, dev, sb
+}
+
+// c20PlainInode restricts raw to a non-symlink inode without extent tree (no further decoding paths).
+func c20PlainInode(raw []byte, sb *superblock) {
+	raw[1] = raw[1]&0x0f | 0x80 // regular file, permission/suid bits arbitrary
+	vp.Assume(raw[0x22]&0x08 == 0)
+	vp.Assume(c20le16(raw, 0x80) == 32)
+	vp.Assume(c20le32(raw, 0x88)>>2 < 1000000000)
+	vp.Assume(c20le32(raw, 0x8c)>>2 < 1000000000)
+	c20SealInode(raw, sb.checksumSeed, c20Ino)
+}
+
+// VP_C20_api_stat: FileSystem.Stat("f") on an image whose file inode is arbitrary (regular file):
+// size, mode (type, permissions, suid/sgid/sticky), mtime, and through Sys() uid/gid/atime/links are
+// the inode's on-disk values.
+func VP_C20_api_stat() {
+	raw := vp.Bytes("inode", 256)
+	fs, _, sb := c20RootFS(raw, 1)
+	c20PlainInode(raw, sb)
+	vp.Unwind(8)
+	vp.AllocCap(50)
+	vp.NoPanic()
+	fi, err := fs.Stat("f")
+	vp.AllowPanic()
+	vp.Assert(err == nil, "Stat of an existing file succeeds")
+	if err != nil {
+		return
+	}
+	mode := c20le16(raw, 0)
+	vp.Assert(fi.Name() == "f", "Stat: name")
+	vp.Assert(fi.Size() == int64(uint64(c20le32(raw, 4))|uint64(c20le32(raw, 0x6c))<<32), "Stat: size")
+	vp.Assert(uint16(fi.Mode().Perm()) == mode&0o777, "Stat: permission bits")
+	vp.Assert(fi.Mode()&os.ModeType == 0, "Stat: regular file type")
+	vp.Assert((fi.Mode()&os.ModeSetuid != 0) == (mode&0o4000 != 0), "Stat: setuid")
+	vp.Assert(!fi.IsDir(), "Stat: not a directory")
+	sec, nsec := c20RefTime(raw, 0x10, 0x88)
+	vp.Assert(fi.ModTime().Unix() == sec, "Stat: mtime seconds")
+	vp.Assert(int64(fi.ModTime().Nanosecond()) == nsec, "Stat: mtime nanoseconds")
+	st, ok := fi.Sys().(*StatT)
+	vp.Assert(ok, "Stat: Sys() is *StatT")
+	if !ok {
+		return
+	}
+	vp.Assert(st.UID == uint32(c20le16(raw, 2))|uint32(c20le16(raw, 0x78))<<16, "Stat: uid")
+	vp.Assert(st.GID == uint32(c20le16(raw, 0x18))|uint32(c20le16(raw, 0x7a))<<16, "Stat: gid")
+	vp.Assert(st.Nlink == c20le16(raw, 0x1a), "Stat: links")
+	vp.Assert(st.Ino == c20Ino, "Stat: inode number")
+	sec, _ = c20RefTime(raw, 0x8, 0x8c)
+	vp.Assert(st.AccessTime.Unix() == sec, "Stat: atime seconds")
+	vp.Cover("Stat through the directory tree")
+}
+
+// VP_C20_api_readdir: FileSystem.ReadDir(".") lists exactly "f" (dot entries are not listed) with the
+// inode's size and mtime.
+func VP_C20_api_readdir() {
+	raw := vp.Bytes("inode", 256)
+	fs, _, sb := c20RootFS(raw, 1)
+	c20PlainInode(raw, sb)
+	vp.Unwind(8)
+	vp.AllocCap(50)
+	vp.NoPanic()
+	ents, err := fs.ReadDir(".")
+	vp.AllowPanic()
+	vp.Assert(err == nil, "ReadDir of the root succeeds")
+	if err != nil {
+		return
+	}
+	vp.Assert(len(ents) == 1, "ReadDir: one entry besides . and ..")
+	if len(ents) != 1 {
+		return
+	}
+	vp.Assert(ents[0].Name() == "f", "ReadDir: name")
+	vp.Assert(!ents[0].IsDir(), "ReadDir: not a directory")
+	vp.Assert(ents[0].Type() == 0, "ReadDir: type of a regular file")
+	fi, err := ents[0].Info()
+	vp.Assert(err == nil, "ReadDir: Info()")
+	if err != nil {
+		return
+	}
+	vp.Assert(fi.Size() == int64(uint64(c20le32(raw, 4))|uint64(c20le32(raw, 0x6c))<<32), "ReadDir: size")
+	sec, _ := c20RefTime(raw, 0x10, 0x88)
+	vp.Assert(fi.ModTime().Unix() == sec, "ReadDir: mtime seconds")
+	vp.Cover("ReadDir through the directory tree")
+}
+
+// VP_C20_api_readlink: FileSystem.ReadLink("f") of a fast symlink returns the i_size bytes of i_block.
+func VP_C20_api_readlink() {
+	raw := vp.Bytes("inode", 256)
+	fs, _, sb := c20RootFS(raw, 7)
+	raw[1] = raw[1]&0x0f | 0xa0
+	raw[5], raw[6], raw[7] = 0, 0, 0
+	c20put32(raw, 0x6c, 0)
+	size := int(raw[4])
+	vp.Assume(size >= 1)
+	vp.Assume(size < 60)
+	vp.Assume(raw[0x22]&0x08 == 0)
+	c20SealInode(raw, sb.checksumSeed, c20Ino)
+	vp.Unwind(8)
+	vp.AllocCap(50)
+	vp.NoPanic()
+	target, err := fs.ReadLink("f")
+	vp.AllowPanic()
+	vp.Assert(err == nil, "ReadLink of a symlink succeeds")
+	if err != nil {
+		return
+	}
+	vp.Assert(len(target) == size, "ReadLink: target length = i_size")
+	for _, j := range []int{0, 1, 30, 58} {
+		if j < size && j < len(target) {
+			vp.Assert(target[j] == raw[0x28+j], "ReadLink: target bytes")
+		}
+	}
+	vp.Cover("ReadLink through the directory tree")
+}
+
+// VP_C20_api_getxattr: FileSystem.GetXattr("f") returns the in-inode attribute with its value.
+func VP_C20_api_getxattr() {
+	raw := vp.Bytes("inode", 256)
+	fs, _, sb := c20RootFS(raw, 1)
+	raw[0x80], raw[0x81] = 32, 0
+	c20put32(raw, 0x68, 0) // no attribute block
+	raw[0x76], raw[0x77] = 0, 0
+	m := 128 + 32
+	raw[m], raw[m+1], raw[m+2], raw[m+3] = 0x00, 0x00, 0x02, 0xea
+	area := raw[m+4:]
+	offs, size := vp.U16("offs"), vp.U32("size")
+	vp.Assume(size >= 1)
+	vp.Assume(size <= 4)
+	vp.Assume(offs >= 32)
+	vp.Assume(int(offs) <= len(area)-4)
+	p := c20PutXattr(area, 0, 1, "k", offs, 0, size)
+	area[p], area[p+1], area[p+2], area[p+3] = 0, 0, 0, 0
+	c20PlainInode(raw, sb)
+	vp.Unwind(8)
+	vp.AllocCap(50)
+	vp.NoPanic()
+	res, err := fs.GetXattr("f")
+	vp.AllowPanic()
+	vp.Assert(err == nil, "GetXattr succeeds")
+	if err != nil {
+		return
+	}
+	c20CheckValue(res, "user.k", area, offs, size, 4)
+	vp.Cover("GetXattr through the directory tree")
 }
